@@ -187,5 +187,6 @@ pub fn run(ctx: &mut Ctx) {
     ctx.campaign("inbound-heavy", CampaignCfg::new(t.pick(60_000, 6_000_000)).shards(16), || history_strategy(40, false, 12, false), run_case);
     let depth = t.pick(4u32, 5);
     ctx.enumerate_indexed("small-scope-exhaustive", crate::f3::small_space_size(depth), 16, crate::f3::small_history, run_case);
+    ctx.campaign("nodes", CampaignCfg::new(t.pick(240, 5_000)).shards(16).shrink_iters(8), super::c06_nodes::strategy, super::c06_nodes::run_case);
     ctx.campaign("long", CampaignCfg::new(t.pick(8_000, 900_000)).shards(16), || history_strategy(120, false, 10, false), run_case);
 }
